@@ -1,5 +1,25 @@
 _OPTS = ["default", "full", "minimal", "fastp", "fastcof", "stable", "mini", "lowfull"]
 _SRC = ["c15_main.cpp"] + ["c15_st_%s.cpp" % n for n in _OPTS]
+def _extra(ctx):
+    """C15's last sentence ('in every other check of this suite no operation touches memory outside live objects or executes
+    undefined behaviour'): summarise, from the evidence files the other checks wrote, how many cases each of them executed under
+    which sanitizer build and whether any sanitizer report / crash was attributed to a case (those would have failed that check)."""
+    import glob, json, os
+    summ = {}
+    for f in sorted(glob.glob(os.path.join(ctx["verif"], "evidence", "C*.json"))):
+        try:
+            e = json.load(open(f))
+        except Exception:
+            continue
+        cov = e.get("coverage", {})
+        summ[e.get("property_id", os.path.basename(f))] = {
+            "tier": e.get("tier"), "cases": cov.get("evaluations"), "sanitizer_variants": cov.get("sanitizer_variants"),
+            "process_restarts_after_crash_or_sanitizer_report": cov.get("process_restarts_after_crash"),
+            "unlisted_violation_signatures": len(cov.get("new_violation_signatures", [])),
+            "sanitizer_or_crash_signatures": [x for x in cov.get("new_violation_signatures", []) if x.startswith(("sanitizer", "crash"))][:10]}
+    ctx["info"]["suite_wide_sanitizer_summary_from_other_evidence_files"] = summ
+
+
 _MX = ["mx_base_z2_ilist_rows", "mx_base_z5_set_setrows", "mx_base_z2_iset_compression", "mx_base_z5_heap",
        "mx_ru_z2_iset_vine_removable", "mx_ru_z5_list", "mx_ru_z2_vector_map_rep", "mx_boundary_z5_uset",
        "mx_chain_z2_ilist_map_vine", "mx_chain_z5_set_rep", "mx_chain_z2_nvector_setrows_removable"]
@@ -24,6 +44,7 @@ SPEC = {
         {"name": "st_gcc", "src": _SRC, "variant": "gasan", "tiers": ["thorough"],
          "configs": {("st_" + n): {"thorough": 5000} for n in _OPTS}, "chunk": 25},
     ],
+    "extra": _extra,
     "floors": {"quick": {"scenario.copy_ctor": 200, "scenario.move_assign": 200, "scenario.self_copy_assign": 100, "scenario.serialize": 200,
                          "state.source_upper_bound_stale": 100, "cmp.deserialize_truncated": 1000, "steps.divergent": 5000,
                          "_distinct_nontrivial": 1000, "cmp.matrix_independence": 1500, "cmp.matrix_moved_from_reuse": 500, "op.matrix_remove_last": 100}},
